@@ -80,8 +80,7 @@ def analyse(ctx, prog, fq, K=None, discr=()):
     locations, counter names)"""
     f = prog.fn(fq)
     tok, toknames = _sub_tokens(K) if K is not None and K.get('composite') else ({}, [])
-    inl = Inliner(prog, expand_methods=True, stop=lambda t: t.name in tok and not t.static)
-    g = inl.inline(f)
+    g = h07.inline(prog, f, expand_methods=True, stop=lambda t: t.name in tok and not t.static)
     counters = COUNTERS + [('token', n) for n in toknames]
 
     def call_delta(e):
@@ -100,18 +99,57 @@ def analyse(ctx, prog, fq, K=None, discr=()):
     return g, rets, covered, [c[1] for c in counters]
 
 
+class Coverage:
+    """What the balance / runner / iv_main analyses have looked at, collected from their inlined graphs:
+       steps   {source location of a counter store: set of steps it makes in the analysed contexts}
+       ctx     {(root function name, location): [event, set of steps]} for stores that come from an inlined helper
+       seen    locations of events that take the address of a counter and lie on an analysed path
+       escapes {location: (root name, event)} where such an address is still around after the cached-address
+               normalisation (handed to code that is not analysed, stored, ...)"""
+
+    def __init__(self):
+        self.steps, self.ctx, self.seen, self.escapes = {}, {}, set(), {}
+
+    def get(self, loc):
+        return self.steps.get(loc)
+
+
+ADDR_KEYS = None
+
+
+def _addr_keys():
+    return set(COUNTERS) | {QUIT}
+
+
 def _counter_store_locs(g):
-    """{source location of a counter store: set of steps it makes in this (inlined) context}"""
-    out = {}
+    """Coverage of one inlined graph."""
+    cov = Coverage()
+    keys = _addr_keys()
+    root = getattr(g, 'name', '?')
     for e in g.events():
-        if e['ev'] == 'store' and counter_key(e) in COUNTERS:
-            out.setdefault(e['loc'], set()).add(step_of(e))
-    return out
+        if e['ev'] == 'store' and counter_key(e) in keys:
+            if counter_key(e) in COUNTERS:
+                cov.steps.setdefault(e['loc'], set()).add(step_of(e))
+            if e.get('chain'):
+                cov.ctx.setdefault((root, e['loc']), [e, set()])[1].add(step_of(e) if counter_key(e) != QUIT else const_store(e))
+    if h07.mentions_addr_of(g, keys):
+        for e in g.events():
+            if any(x.get('k') == 'addr' and h07.last_member(x.get('e')) in keys for x in h07.walk(e)):
+                cov.seen.add(e['loc'])
+        for e in h07.escaping_addrs(g, keys):
+            if e['ev'] != 'enter':
+                cov.escapes.setdefault(e['loc'], (root, e))
+    return cov
 
 
 def _cover(covered, cov):
-    for loc, steps in cov.items():
-        covered.setdefault(loc, set()).update(steps)
+    for loc, steps in cov.steps.items():
+        covered.steps.setdefault(loc, set()).update(steps)
+    for k, (e, steps) in cov.ctx.items():
+        covered.ctx.setdefault(k, [e, set()])[1].update(steps)
+    covered.seen |= cov.seen
+    for loc, v in cov.escapes.items():
+        covered.escapes.setdefault(loc, v)
 
 
 def run(ctx):
@@ -132,12 +170,12 @@ def run(ctx):
 
     ctx.rule('R-C07e', 'no busy wake-ups from rounding: the millisecond conversion of the remaining time rounds up (shared with C04 R-C04g)', floor=6)
     ctx.section(lambda c: __import__('ivy.rules.c04', fromlist=['x']).rounding(c, 'R-C07e'))
-    covered = {}
+    covered = Coverage()
     ctx.section(balance, covered)
     ctx.section(auto_unregister, covered)
-    ctx.section(writers, covered)
-    ctx.section(check_main, prog)
+    ctx.section(check_main, prog, covered)
     ctx.section(try_rollback)
+    ctx.section(writers, covered)
 
 
 # --------------------------------------------------------------------------
@@ -270,13 +308,18 @@ def auto_unregister(ctx, covered):
                 sk = h07.site_kind(f, e)
                 if sk and sk[0] == 'callback' and sk[1] in ONE_SHOT:
                     owners.setdefault(f.q, (f, set()))[1].add(sk[1])
+            elif e['ev'] == 'call':
+                # the handler pointer is handed to a trampoline: the call through it shows up once that is inlined
+                for sk in h07.passed_callbacks(f, e):
+                    if sk[0] == 'callback' and sk[1] in ONE_SHOT:
+                        owners.setdefault(f.q, (f, set()))[1].add(sk[1])
     ctxs = {}
     for q, (f, kinds) in sorted(owners.items()):
         for r in h07.nearest_roots(prog, f):
             ctxs.setdefault(r.q, (r, set()))[1].update(kinds)
     graphs = {}
     for q, (r, kinds) in sorted(ctxs.items()):
-        graphs[q] = Inliner(prog, expand_methods=False).inline(r)
+        graphs[q] = h07.inline(prog, r, expand_methods=False)
         _cover(covered, _counter_store_locs(graphs[q]))
     for q, (r, kinds) in sorted(ctxs.items()):
         g = graphs[q]
@@ -349,18 +392,30 @@ def auto_unregister(ctx, covered):
 # --------------------------------------------------------------------------
 
 def writers(ctx, covered):
+    """Every store to a counter, wherever it is written and however the location is reached (directly, through a
+    cached address, through a get/put wrapper):
+      * per source store (in the function that contains it): unit step / constant / zeroing only under iv_init, and the
+        store lies on an analysed path;
+      * per analysed context of a store that sits in a helper: the step it makes *there* is a unit step (the step may be
+        an argument of the helper), so the instances do not disappear when stores are gathered into wrappers;
+      * the address of a counter is taken only on analysed paths, on which every use of it resolves to a direct access."""
     prog = ctx.prog
     init = prog.fn('iv_init')
+    keys = _addr_keys()
+    funcs = sorted(prog.all_funcs(), key=lambda f: f.q)
     for c in COUNTERS[:3] + [QUIT]:
-        ws = prog.writers_of(*c)
+        ws = []
+        for f0 in funcs:
+            f = h07.normalised(prog, f0, keys)
+            ws += [(f0, e) for e in f.events() if e['ev'] == 'store' and counter_key(e) == c]
         for (f, e) in ws:
-            if len(lvalue_steps(e['lhs'])) != 1:
-                continue
             op = e['op']
             k = const_store(e)
             if c == QUIT:
-                ok = k in (0, 1)
-                det = 'constant store'
+                # a constant, or a parameter for which every caller passes a constant (setter with a value argument)
+                vals = h07.param_values(prog, f, e['rhs']) if e.get('op') == '=' and 'rhs' in e else None
+                ok = vals is not None and vals <= {0, 1}
+                det = 'constant store' + ('' if k is not None else ' (value passed by the callers: %s)' % (sorted(vals) if vals is not None else 'not constant'))
             elif k == 0:
                 ok = f.q == init.q or h07.only_through(prog, f, init)
                 det = 'zeroing, reachable only from iv_init (thread init)'
@@ -374,6 +429,32 @@ def writers(ctx, covered):
                     ok = all(n in (1, -1) for n in inst) and raw in (1, -1, None)
                     det = 'unit step' + ('' if raw is not None else ' in every analysed calling context')
             ctx.ob('R-C07a', '%s:%s.%s %s' % (f.name, c[0], c[1], op), ok, loc=e['loc'], detail=det, fn=f.q)
+    for (root, loc), (e, steps) in sorted(covered.ctx.items()):
+        c = counter_key(e)
+        if c not in COUNTERS[:3] + [QUIT]:
+            continue
+        origin = e.get('fn') or '?'
+        oname = prog.funcs[origin].name if origin in prog.funcs else origin
+        if c == QUIT:
+            ok, det = all(n in (0, 1) for n in steps), 'constant store in this context'
+        elif steps == {None} and const_store(e) == 0:
+            continue            # zeroing: judged above, per source store
+        else:
+            ok, det = all(n in (1, -1) for n in steps), 'unit step in this analysed context (%s)' % sorted(steps, key=str)
+        ctx.ob('R-C07a', '%s>%s:%s.%s %s' % (root, oname, c[0], c[1], e['op']), ok, loc=loc, detail=det, fn=origin)
+    for f0 in funcs:
+        if not (f0.blocks and h07.mentions_addr_of(f0, keys)):
+            continue
+        for loc, evs in sorted(roles.by_loc([e for e in f0.events()
+                                             if any(x.get('k') == 'addr' and h07.last_member(x.get('e')) in keys
+                                                    for x in h07.walk(e))]).items()):
+            esc = covered.escapes.get(loc)
+            ok = loc in covered.seen and esc is None
+            ctx.ob('R-C07a', '%s:counter-address' % f0.name, ok, loc=loc,
+                   detail='the address of a loop-accounting counter is taken only on an analysed path and every use of the '
+                          'pointer resolves to a direct access there'
+                          + ('' if ok else (' (escapes in %s: %s)' % (esc[0], describe(esc[1])) if esc else
+                                            ' (not on any analysed path)')), fn=f0.q)
 
 
 # --------------------------------------------------------------------------
@@ -381,51 +462,50 @@ def writers(ctx, covered):
 # --------------------------------------------------------------------------
 
 def try_rollback(ctx):
+    """Every return of iv_fd_register_try that reports failure, or that did not count the descriptor as a loop object
+    (net counter change zero), is a complete rollback: on *that path* the last value stored to iv_fd_.registered is 0 and
+    the method's unregister_fd hook was called (or tested NULL).  Path-sensitive (the value and the hook bit are part of
+    the disjunctive state that also carries the return value), so a single `return ret` shared by the success and the
+    failure path, a goto-cleanup label or a common helper `register(fd, may_fail)` are all the same thing."""
     prog = ctx.prog
     f = prog.fn('iv_fd_register_try')
-    g = Inliner(prog, expand_methods=False).inline(f)
-    res = h07.delta(g, COUNTERS)
-    failrets = [(e, d) for (e, d, rc, p) in res.rets if is_fail(rc)]
-    if not failrets:
-        raise AnalysisBroken('iv_fd_register_try has no failure return')
-    # value of iv_fd_.registered at each point, as last stored on every path ('?' when paths disagree / unknown)
+    g = h07.inline(prog, f, expand_methods=False)
     REG = ('iv_fd_', 'registered')
+    slot = 'unregister_fd'
 
-    def tr(e, s):
-        if e['ev'] == 'store' and lvalue_steps(e['lhs'])[:1] == [REG]:
-            k = const_store(e)
-            return '?' if k is None else str(k)
-        return s
-    _, val = forward(g, 'entry', tr, lambda a, b: a if a == b else '?')
+    def atr(e, a):
+        if e['ev'] == 'store':
+            steps = lvalue_steps(e['lhs'])
+            if steps and steps[0] == REG:
+                k = const_store(e)
+                return ('?' if k is None else str(k), a[1])
+        elif e['ev'] == 'call' and 'fnexpr' in e and h07.site_kind(g, e) == ('method', slot):
+            return (a[0], True)
+        return a
+
+    def aedge(blk, si, a):
+        if not a[1]:
+            for (op, lc, rc, l, r) in norm_cond(blk.term['cond'], si == 0):
+                if op == '==' and rc == '0' and h07.value_member(g, l) == ('iv_fd_poll_method', slot):
+                    return (a[0], True)
+        return a
+    res = h07.delta(g, COUNTERS, aux=(('?', False), atr, aedge))
+    if not any(is_fail(rc) for (e, d, rc, p, a) in res.rets_aux):
+        raise AnalysisBroken('iv_fd_register_try has no failure return')
     byloc = {}
-    for (e, d) in failrets:
-        v = val.get((e['_b'], e['_i']), '?')
-        hook = _call_or_null_slot(g, e, 'unregister_fd')
+    for (e, d, rc, p, a) in res.rets_aux:
+        if not (is_fail(rc) or not any(d)):
+            continue
         cur = byloc.setdefault(e['loc'], [e, True, True])
-        cur[1] = cur[1] and v == '0'
-        cur[2] = cur[2] and hook
+        cur[1] = cur[1] and a[0] == '0'
+        cur[2] = cur[2] and a[1]
     for loc, (e, ok1, ok2) in sorted(byloc.items()):
         ctx.ob('R-C07d', 'iv_fd_register_try:registered=0', ok1, loc=loc,
-               detail='on every failing path the last store to fd->registered before the return is 0', fn=f.q)
+               detail='on every path that returns failure (or without having counted the descriptor) the last store to '
+                      'fd->registered before the return is 0', fn=f.q)
         ctx.ob('R-C07d', 'iv_fd_register_try:unregister_fd', ok2, loc=loc,
-               detail='every failing path executes method->unregister_fd (if set) before returning', fn=f.q)
-
-
-def _call_or_null_slot(g, ret_ev, slot):
-    """Every path to ret_ev either calls method-><slot> or crossed the NULL edge of a test of it."""
-    def tr(e, s):
-        if e['ev'] == 'call' and 'fnexpr' in e and h07.site_kind(g, e) == ('method', slot):
-            return True
-        return s
-
-    def edge(blk, si, s):
-        if blk.term and blk.term.get('cond') is not None and len(blk.succ) == 2:
-            for (op, lc, rc, l, r) in norm_cond(blk.term['cond'], si == 0):
-                if h07.value_member(g, l) == ('iv_fd_poll_method', slot) and op == '==' and rc == '0':
-                    return True
-        return s
-    _, ev_in = forward(g, False, tr, lambda a, b: a and b, edge=edge)
-    return bool(ev_in.get((ret_ev['_b'], ret_ev['_i'])))
+               detail='every path that returns failure (or without having counted the descriptor) executes '
+                      'method->unregister_fd (if set) before returning', fn=f.q)
 
 
 # --------------------------------------------------------------------------
@@ -435,14 +515,20 @@ def _call_or_null_slot(g, ret_ev, slot):
 MAIN_FACTS = h07.Facts({QUIT: (0, 1), NUMOBJS: (0, 1, 2, 5)})
 
 
-def check_main(ctx, prog):
+def check_main(ctx, prog, covered=None):
     """Abstract execution of iv_main (file-local helpers inlined) over the facts quit ∈ {0, ≠0, ?} and
     numobjs ∈ {0, ≠0, ?}, which are forgotten at every call that may run user callbacks or write them
     (from the call graph), with disjunctive states so that any spelling of the exit test
     (`a || b`, two breaks, a cached flag, a helper predicate, the loop condition) yields the same facts."""
     f = prog.fn('iv_main')
     eff = h07.Effects(prog, watch=[QUIT, NUMOBJS])
-    g = Inliner(prog, stop=lambda t: not (t.static or t.file == f.file)).inline(f)
+    g = h07.inline(prog, f, stop=lambda t: not (t.static or t.file == f.file))
+    if covered is not None:
+        # only the address bookkeeping: a counter *store* in iv_main is not thereby a balanced one
+        cov = _counter_store_locs(g)
+        covered.seen |= cov.seen
+        for loc, v in cov.escapes.items():
+            covered.escapes.setdefault(loc, v)
     facts = MAIN_FACTS
 
     cls = {}
@@ -462,8 +548,7 @@ def check_main(ctx, prog):
     blocks = [e for e in g.events() if 'block' in cls.get(id(e), ())]
     if not blocks:
         raise AnalysisBroken('iv_main: no call that enters the poll method\'s kernel wait')
-    if not any('tasks' in c for c in cls.values()):
-        raise AnalysisBroken('iv_main: no call that runs task handlers')
+    # (no call that runs task handlers at all: every `tasks-before-poll` obligation below fails)
 
     # state: frozenset of (facts, cleared, tasks, dispatched); facts = sorted tuple of (key, 'z'|'nz')
     def mk(env, cleared, tasks, disp):
@@ -493,7 +578,12 @@ def check_main(ctx, prog):
                     plain = e.get('op') == '=' and 'rhs' in e
                     v = h07.truth(facts, env, e['rhs']) if plain else '?'
                     av = h07.alias_value(facts, e['rhs']) if plain else None
+                    iv = h07.value(facts, env, e['rhs']) if plain else None
                     env.pop(('var', l['name']), None)
+                    env.pop(('val', l['name']), None)
+                    if iv is not None:
+                        # the integer itself (an enum-valued status consumed by a switch)
+                        env[('val', l['name'])] = iv
                     for k_ in [k_ for k_ in env if k_[0] == 'alias' and (k_[1] == l['name'] or h07.alias_mentions(env[k_], l['name']))]:
                         env.pop(k_)
                     if v != '?':
@@ -504,6 +594,7 @@ def check_main(ctx, prog):
                         env[('alias', l['name'])] = av
             elif ev == 'decl':
                 env.pop(('var', e['name']), None)
+                env.pop(('val', e['name']), None)
                 env.pop(('alias', e['name']), None)
             elif ev == 'call':
                 c = cls.get(id(e), ())
@@ -519,11 +610,18 @@ def check_main(ctx, prog):
                     a = strip(a)
                     if isinstance(a, dict) and a.get('k') == 'addr' and strip(a['e']).get('k') == 'var':
                         env.pop(('var', strip(a['e'])['name']), None)
+                        env.pop(('val', strip(a['e'])['name']), None)
                         env.pop(('alias', strip(a['e'])['name']), None)
             out.add(mk(env, cleared, tasks, disp))
         return frozenset(out)
 
     def edge(blk, si, S):
+        if blk.term and blk.term.get('cls') == 'SwitchStmt' and blk.term.get('cases') and blk.term.get('cond') is not None:
+            out = set()
+            for (fk, cleared, tasks, disp) in S:
+                for env in h07.switch_edge(facts, dict(fk), blk.term, si):
+                    out.add(mk(env, cleared, tasks, disp))
+            return frozenset(out) if out else None
         if not blk.term or len(blk.succ) != 2 or blk.term.get('cond') is None \
                 or blk.term.get('cls') in ('SwitchStmt', 'MethodDispatch'):
             return S
